@@ -6,7 +6,8 @@
 From PahoV Require Import Base.Prelude Session2.Model Session2.Check.
 
 (* histories in which no write fails hard: the operation [OTransport TFail] (the peer vanishes; the next write
-   raises OSError) does not occur.  The transport may still refuse writes (BlockingIOError) at any time. *)
+   raises OSError) does not occur.  Every statement below quantifies over ALL conforming histories, those with hard
+   write failures included; [no_fail] is only used to exhibit such a history (Props/S2.v). *)
 Definition is_tfail (o : op) : bool := match o with OTransport TFail => true | _ => false end.
 Definition no_fail (ops : list op) : bool := forallb (fun o => negb (is_tfail o)) ops.
 
@@ -15,15 +16,6 @@ Definition C01_stmt : Prop := forall c ops,
 
 Definition C02_stmt : Prop := forall c ops,
   cfg_ok c = true -> conforming c ops = true -> c02_ok c (optrace c ops) = true.
-
-(* the same two statements for histories without hard write failures (what is proved so far for C01, C02 on this
-   model; the full statements above stay the goal and are what the correspondence harness checks on the
-   implementation's traces, hard failures included) *)
-Definition C01_calm_stmt : Prop := forall c ops,
-  cfg_ok c = true -> conforming c ops = true -> no_fail ops = true -> c01_ok c (optrace c ops) = true.
-
-Definition C02_calm_stmt : Prop := forall c ops,
-  cfg_ok c = true -> conforming c ops = true -> no_fail ops = true -> c02_ok c (optrace c ops) = true.
 
 Definition C03_stmt : Prop := forall c ops,
   c03_ok c (optrace c ops) = true.     (* arbitrary histories: no conformance hypothesis *)
@@ -39,24 +31,12 @@ Definition C12_handed_stmt : Prop := forall c ops,
 Definition C12_queue_stmt : Prop := forall c ops,
   cfg_ok c = true -> conforming c ops = true -> c12_queue_ok c (optrace c ops) = true.
 
-Definition C12_window_calm_stmt : Prop := forall c ops,
-  cfg_ok c = true -> conforming c ops = true -> no_fail ops = true -> c12_window_ok c (optrace c ops) = true.
-Definition C12_handed_calm_stmt : Prop := forall c ops,
-  cfg_ok c = true -> conforming c ops = true -> no_fail ops = true -> c12_handed_ok c (optrace c ops) = true.
-Definition C12_queue_calm_stmt : Prop := forall c ops,
-  cfg_ok c = true -> conforming c ops = true -> no_fail ops = true -> c12_queue_ok c (optrace c ops) = true.
-
 (* publish() order of the hand-overs and of the writes, per connection *)
 Definition C13_handed_stmt : Prop := forall c ops,
   cfg_ok c = true -> conforming c ops = true -> c13_handed_ok c (optrace c ops) = true.
 
 Definition C13_tx_stmt : Prop := forall c ops,
   cfg_ok c = true -> conforming c ops = true -> c13_tx_ok c (optrace c ops) = true.
-
-Definition C13_handed_calm_stmt : Prop := forall c ops,
-  cfg_ok c = true -> conforming c ops = true -> no_fail ops = true -> c13_handed_ok c (optrace c ops) = true.
-Definition C13_tx_calm_stmt : Prop := forall c ops,
-  cfg_ok c = true -> conforming c ops = true -> no_fail ops = true -> c13_tx_ok c (optrace c ops) = true.
 
 (* the output queue is a FIFO: per connection the written packets are a prefix of the handed packets;
    nothing stays queued on an open socket that accepts writes.  Arbitrary histories. *)
